@@ -821,7 +821,10 @@ def run(tier, replay=None):
         settle_trace(chk, traceB, rejects, "B")
         compare_blur_terms(chk, pending, printed)
         chk.samples.append({"trace_record": {k: v for k, v in traceB[-1].items() if k not in ("prop", "obs", "ctx")}})
-        corrupt_one_field(chk, traceB, {i for i, _ in rejects})
+        # records after the last rejection of a truncated validation (12 rejections) were never judged: only
+        # records the trace spec has accepted qualify for the corruption self-test
+        judged = len(traceB) if len(rejects) < 12 else rejects[-1][0]
+        corrupt_one_field(chk, traceB[:judged], {i for i, _ in rejects})
         return chk.finish()
     finally:
         shutil.rmtree(tmp, ignore_errors=True)
